@@ -43,9 +43,9 @@ def main():
 
     # ---- 1+2: Lean -------------------------------------------------------------------------------------------
     theorems = list(getattr(H, "THEOREMS", []))
-    ob = lib.VERIF / "checks" / "obligations.json"
+    ob = lib.VERIF / "checks" / "obligations" / f"{prop}.json"
     if ob.exists():
-        theorems += [t for t in json.load(open(ob)).get(prop, []) if t not in theorems]
+        theorems += [t for t in json.load(open(ob)) if t not in theorems]
     modules = list(getattr(H, "LEAN_MODULES", []))
     audit_res = {}
     driver_ok = True
